@@ -342,4 +342,13 @@ def r7a(ctx):
         ctx.rules[nid] = rule
 
 
-RULES = [r1_gate_coverage, r2_exemption_table, r3_equality, r4_input_sums, r5_issuance_confinement, r6_floor, r7a, r8_subsidy_peg]
+def shared(ctx):
+    """necessary conditions of conservation that are owned by other properties"""
+    from rules.engine import core
+    from rules.props import c02, c03, c15
+    core.import_rules(ctx, [c02.r2_input_resolution, c02.r3_double_spend, c02.r5_effects], "X02")
+    core.import_rules(ctx, [c03.r2_batch_commutativity], "X03")
+    core.import_rules(ctx, [c15.r1_selection_atoms, c15.r2_canonical_keys, c15.r3_swaps, c15.r3_deposits, c15.r3_withdrawals, c15.r5_only_selected], "X15")
+
+
+RULES = [r1_gate_coverage, r2_exemption_table, r3_equality, r4_input_sums, r5_issuance_confinement, r6_floor, r7a, r8_subsidy_peg, shared]
